@@ -36,13 +36,11 @@ structure Inv (s : State) : Prop where
       (s.futs f).value = none ∧ t ∈ (s.futs f).waiters
   waiting_known : ∀ t f, (s.pc t = .waitFut f ∨ s.pc t = .parking f) → f < s.nextFut
   open_has_completer : ∀ f, f < s.nextFut → (s.futs f).value = none → ∃ t, completerOf (s.pc t) = some f
+  valued_known : ∀ f v, (s.futs f).value = some v → f < s.nextFut
 
 theorem inv_init (n : Nat) (g : Bool) : Inv (init n g) := by
   constructor <;> simp [init, ownerOf, completerOf]
 
-end Fv.Cache.Loader
-
-namespace Fv.Cache.Loader
 
 theorem wakeAll_apply (tok : Nat → Bool) (ws : List Nat) (t : Nat) : wakeAll tok ws t = if t ∈ ws then true else tok t := rfl
 
@@ -54,7 +52,7 @@ existence clauses by the supplied tactics. -/
 syntax "inv_with " "(" tacticSeq ")" "(" tacticSeq ")" : tactic
 macro_rules
   | `(tactic| inv_with ($mo) ($oc)) => `(tactic|
-      (refine ⟨?f1, ?f2, ?f3, ?f4, ?mo, ?f6, ?f7, ?oc⟩
+      (refine ⟨?f1, ?f2, ?f3, ?f4, ?mo, ?f6, ?f7, ?oc, ?f9⟩
        case mo => $mo
        case oc => $oc
        all_goals (simp only []; grind)))
@@ -95,80 +93,102 @@ macro_rules | `(tactic| oc_move $h8 $t $w) => `(tactic|
    · exact ⟨u, by grind⟩))
 
 theorem inv_call {s s' : State} {t k : Nat} (hi : Inv s) (h : stepCall s t k = some s') : Inv s' := by
-  obtain ⟨h1, h2, h3, h4, h5, h6, h7, h8⟩ := hi
+  obtain ⟨h1, h2, h3, h4, h5, h6, h7, h8, h9⟩ := hi
   unfold stepCall at h
   repeat' split at h
   all_goals (simp at h; try subst h)
   all_goals inv_with (mo_old h5) (oc_old h8)
 
 theorem inv_mapRead {s s' : State} {t : Nat} (hi : Inv s) (h : stepMapRead s t = some s') : Inv s' := by
-  obtain ⟨h1, h2, h3, h4, h5, h6, h7, h8⟩ := hi
+  obtain ⟨h1, h2, h3, h4, h5, h6, h7, h8, h9⟩ := hi
   unfold stepMapRead at h
   repeat' split at h
   all_goals (simp at h; try subst h)
   all_goals inv_with (mo_new h5 s (s.nextTid)) (oc_new h8 s (s.nextTid))
 
 theorem inv_pendingCS {s s' : State} {t : Nat} (hi : Inv s) (h : stepPendingCS s t = some s') : Inv s' := by
-  obtain ⟨h1, h2, h3, h4, h5, h6, h7, h8⟩ := hi
+  obtain ⟨h1, h2, h3, h4, h5, h6, h7, h8, h9⟩ := hi
   unfold stepPendingCS at h
   repeat' split at h
   all_goals (simp at h; try subst h)
   all_goals inv_with (mo_new h5 s t) (oc_new h8 s t)
 
 theorem inv_spawn {s s' : State} {t : Nat} (hi : Inv s) (h : stepSpawn s t = some s') : Inv s' := by
-  obtain ⟨h1, h2, h3, h4, h5, h6, h7, h8⟩ := hi
+  obtain ⟨h1, h2, h3, h4, h5, h6, h7, h8, h9⟩ := hi
   unfold stepSpawn at h
   repeat' split at h
   all_goals (simp at h; try subst h)
   all_goals inv_with (mo_move h5 t (s.nextTid)) (oc_move h8 t (s.nextTid))
 
 theorem inv_futCS {s s' : State} {t : Nat} (hi : Inv s) (h : stepFutCS s t = some s') : Inv s' := by
-  obtain ⟨h1, h2, h3, h4, h5, h6, h7, h8⟩ := hi
+  obtain ⟨h1, h2, h3, h4, h5, h6, h7, h8, h9⟩ := hi
   unfold stepFutCS at h
   repeat' split at h
   all_goals (simp at h; try subst h)
   all_goals inv_with (mo_old h5) (oc_old h8)
 
 theorem inv_park {s s' : State} {t : Nat} (hi : Inv s) (h : stepPark s t = some s') : Inv s' := by
-  obtain ⟨h1, h2, h3, h4, h5, h6, h7, h8⟩ := hi
+  obtain ⟨h1, h2, h3, h4, h5, h6, h7, h8, h9⟩ := hi
   unfold stepPark at h
   repeat' split at h
   all_goals (simp at h; try subst h)
   all_goals inv_with (mo_old h5) (oc_old h8)
 
 theorem inv_spurious {s s' : State} {t : Nat} (hi : Inv s) (h : stepSpurious s t = some s') : Inv s' := by
-  obtain ⟨h1, h2, h3, h4, h5, h6, h7, h8⟩ := hi
+  obtain ⟨h1, h2, h3, h4, h5, h6, h7, h8, h9⟩ := hi
   unfold stepSpurious at h
   repeat' split at h
   all_goals (simp at h; try subst h)
   all_goals inv_with (mo_old h5) (oc_old h8)
 
 theorem inv_load {s s' : State} {t : Nat} (hi : Inv s) (h : stepLoad s t = some s') : Inv s' := by
-  obtain ⟨h1, h2, h3, h4, h5, h6, h7, h8⟩ := hi
+  obtain ⟨h1, h2, h3, h4, h5, h6, h7, h8, h9⟩ := hi
   unfold stepLoad at h
   repeat' split at h
   all_goals (simp at h; try subst h)
   all_goals inv_with (mo_old h5) (oc_old h8)
 
 theorem inv_mapInsert {s s' : State} {t : Nat} (hi : Inv s) (h : stepMapInsert s t = some s') : Inv s' := by
-  obtain ⟨h1, h2, h3, h4, h5, h6, h7, h8⟩ := hi
+  obtain ⟨h1, h2, h3, h4, h5, h6, h7, h8, h9⟩ := hi
   unfold stepMapInsert at h
   repeat' split at h
   all_goals (simp at h; try subst h)
   all_goals inv_with (mo_old h5) (oc_old h8)
 
 theorem inv_pendRemove {s s' : State} {t : Nat} (hi : Inv s) (h : stepPendRemove s t = some s') : Inv s' := by
-  obtain ⟨h1, h2, h3, h4, h5, h6, h7, h8⟩ := hi
+  obtain ⟨h1, h2, h3, h4, h5, h6, h7, h8, h9⟩ := hi
   unfold stepPendRemove at h
   repeat' split at h
   all_goals (simp at h; try subst h)
   all_goals inv_with (mo_old h5) (oc_old h8)
 
 theorem inv_complete {s s' : State} {t : Nat} (hi : Inv s) (h : stepComplete s t = some s') : Inv s' := by
-  obtain ⟨h1, h2, h3, h4, h5, h6, h7, h8⟩ := hi
+  obtain ⟨h1, h2, h3, h4, h5, h6, h7, h8, h9⟩ := hi
   unfold stepComplete at h
   repeat' split at h
   all_goals (simp at h; try subst h)
   all_goals inv_with (mo_old h5) (oc_old h8)
+
+
+theorem inv_step {s s' : State} {t : Nat} {l : Label} (hi : Inv s) (h : step s t l = some s') : Inv s' := by
+  cases l <;> simp only [step] at h
+  · exact inv_call hi h
+  · exact inv_mapRead hi h
+  · exact inv_pendingCS hi h
+  · exact inv_spawn hi h
+  · exact inv_futCS hi h
+  · exact inv_park hi h
+  · exact inv_spurious hi h
+  · exact inv_load hi h
+  · exact inv_mapInsert hi h
+  · exact inv_pendRemove hi h
+  · exact inv_complete hi h
+  · simp at h; subst h; exact ⟨hi.1, hi.2, hi.3, hi.4, hi.5, hi.6, hi.7, hi.8, hi.9⟩
+  · split at h <;> (simp at h; subst h; exact ⟨hi.1, hi.2, hi.3, hi.4, hi.5, hi.6, hi.7, hi.8, hi.9⟩)
+
+theorem inv_reach {n : Nat} {g : Bool} {s : State} (h : Reach n g s) : Inv s := by
+  induction h with
+  | init => exact inv_init n g
+  | step _ hs ih => exact inv_step ih hs
 
 end Fv.Cache.Loader
